@@ -245,20 +245,20 @@ AMultiVerify(ks, mr) ==
 AReset == phase = "judged" /\ phase' = "idle" /\ art' = NoArt /\ last' = Quiet
 
 Next ==
-  \/ \E k \in Keys, s \in Schemes, mr \in MsgRs : ASign(k, s, mr)
-  \/ \E o \in SigOps : ATamperSig(o)
-  \/ \E pr \in PkRs, mr \in MsgRs : AVerify(pr, mr)
-  \/ \E k \in Keys : APopProve(k)
-  \/ \E k \in NZKeys, s \in Schemes : ASigAsPop(k, s)
-  \/ \E o \in SigOps : ATamperPop(o)
-  \/ \E pr \in PkRs : APopVerify(pr)
-  \/ \E pr \in PkRs, s \in Schemes : APopAsSig(pr, s)
-  \/ \E n \in 2..AggN, s \in Schemes : \E sg \in Signers(n, s) : AAggregate(sg)
-  \/ \E sl \in SchemeLists : AAggregateMixed(sl)
-  \/ \E sl \in SchemeLists : AAccumulateMixed(sl)
-  \/ \E pt \in (IF phase = "made" /\ art.kind = "agg" THEN Perturbations(HonestPairs(art.sg)) ELSE {}) : AAggVerify(pt)
-  \/ \E n \in 2..AggN, s \in Schemes \ {"Aug"} : \E sg \in Signers(n, s) : AAccumulate(sg)
-  \/ \E ks \in KeyLists, mr \in MsgRs : AMultiVerify(ks, mr)
+  \/ (phase = "idle" /\ "single" \in Modes /\ \E k \in Keys, s \in Schemes, mr \in MsgRs : ASign(k, s, mr))
+  \/ (phase = "made" /\ art.kind = "sig" /\ \E o \in SigOps : ATamperSig(o))
+  \/ (phase = "made" /\ art.kind = "sig" /\ \E pr \in PkRs, mr \in MsgRs : AVerify(pr, mr))
+  \/ (phase = "idle" /\ "pop" \in Modes /\ \E k \in Keys : APopProve(k))
+  \/ (phase = "idle" /\ "pop" \in Modes /\ \E k \in NZKeys, s \in Schemes : ASigAsPop(k, s))
+  \/ (phase = "made" /\ art.kind = "pop" /\ \E o \in SigOps : ATamperPop(o))
+  \/ (phase = "made" /\ art.kind = "pop" /\ \E pr \in PkRs : APopVerify(pr))
+  \/ (phase = "made" /\ art.kind = "pop" /\ \E pr \in PkRs, s \in Schemes : APopAsSig(pr, s))
+  \/ (phase = "idle" /\ "agg" \in Modes /\ \E n \in 2..AggN, s \in Schemes : \E sg \in Signers(n, s) : AAggregate(sg))
+  \/ (phase = "idle" /\ "agg" \in Modes /\ \E sl \in SchemeLists : AAggregateMixed(sl))
+  \/ (phase = "idle" /\ "multi" \in Modes /\ \E sl \in SchemeLists : AAccumulateMixed(sl))
+  \/ (phase = "made" /\ art.kind = "agg" /\ \E pt \in Perturbations(HonestPairs(art.sg)) : AAggVerify(pt))
+  \/ (phase = "idle" /\ "multi" \in Modes /\ \E n \in 2..AggN, s \in Schemes \ {"Aug"} : \E sg \in Signers(n, s) : AAccumulate(sg))
+  \/ (phase = "made" /\ art.kind = "multi" /\ \E ks \in KeyLists, mr \in MsgRs : AMultiVerify(ks, mr))
   \/ AReset
 
 Spec == Init /\ [][Next]_vars
